@@ -222,6 +222,14 @@ def _callback(name):
     return cb
 
 
+def _callback_step_impl(name):
+    def impl(x, **kw):
+        rt.call("callback", name, v=x, **kw)
+        return ("cb", name, freeze(x), tuple(sorted((k, freeze(v)) for k, v in kw.items())))
+
+    return impl
+
+
 def _effect(name, i):
     def eff(v):
         rt.call("effect", f"{name}#{i}", v=v)
@@ -436,6 +444,8 @@ class Program:
         return evaluatable_list(*[self.ref(m) for m in n["items"]])
 
     def _b_tuple(self, n):
+        if n.get("via") == "iter":
+            return labrea.Iter(*[self.ref(m) for m in n["items"]]).apply(tuple)
         return evaluatable_tuple(*[self.ref(m) for m in n["items"]])
 
     def _b_dsclass(self, n):
@@ -444,8 +454,14 @@ class Program:
         mixin = type(n["name"] + "Mixin", (), {nm: self.ref(m) for nm, m in n["mixin"]})
         body = {nm: self.ref(m) for nm, m in n["fields"] + n["plain"]}
         body["__annotations__"] = {nm: object for nm, _ in n["fields"]}
-        body["__labsim_fields__"] = sorted(nm for part in ("fields", "plain", "mixin") for nm, _ in n[part])
-        return datasetclass(type(n["name"], (mixin,), body))
+        names = {nm for part in ("fields", "plain", "mixin") for nm, _ in n[part]}
+        bases = (mixin,)
+        if n.get("base"):
+            base = self.ref(n["base"])
+            names |= set(base.__labsim_fields__)
+            bases = (mixin, base)  # (the mixin first: its members override the base's, like the class's own)
+        body["__labsim_fields__"] = sorted(names)
+        return datasetclass(type(n["name"], bases, body))
 
     def _b_dict(self, n):
         return evaluatable_dict({key: self.ref(m) for key, m in n["items"]})
@@ -481,7 +497,10 @@ class Program:
             kw["options"] = self._preset(n["id"], "options", n["options"])
         if n.get("default_options"):
             kw["default_options"] = self._preset(n["id"], "default_options", n["default_options"])
-        if n.get("callback"):
+        if n.get("callback") and n.get("callback_opt"):
+            cfn = make_step_fn(f"cb_{name}", ["p"], [self.ref(n["callback_opt"])], _callback_step_impl(name))
+            kw["callback"] = pipeline_step(cfn)
+        elif n.get("callback"):
             kw["callback"] = _callback(name)
         if n.get("effects") or n.get("effects_opt"):
             kw["effects"] = [_effect(name, i) for i in range(n.get("effects", 0))]
